@@ -605,7 +605,44 @@ def rule_stopflag(ctx, rep):
         rep.check(bool(allz), "C13.stop", fl + ".reset-exists", "the stop flag is reset for the next reclaimer incarnation", "defer_thread_stop is never reset: a reclaimer started later exits at once", [])
 
 
+def rule_tailmeaning(ctx, rep):
+    """Writer / reader agreement on queue->tail.  The decoder publishes tail either after the batch's callbacks have run (tail == head then
+    means `every queued call has finished`) or earlier (then it only means `slots reusable`).  The barrier entry points may decide to
+    return from a read of tail made *without* rcu_defer_mutex only under the first meaning; with the second, the mutex (held by whoever
+    runs the batch) is what makes them wait.  Either half alone is fine - the combination lets rcu_defer_barrier_thread() /
+    rcu_defer_barrier() / unregister return while a call queued before them is still running."""
+    for fl in ALL:
+        F, fn = _defer_fns(ctx, fl)
+        m = ctx.mod(F.lib, "perfn")
+        d = m.fn("rcu_defer_barrier_queue")
+        if d is None:
+            raise Broken("%s: rcu_defer_barrier_queue vanished" % fl)
+        rep.touch(d)
+        ts = pat.stores(d, "defer_queue.tail")
+        ics = [i for i in d.all_insts() if i.op == "icall"]
+        pat.require(ts and ics, "%s: decoder anatomy" % fl)
+        early = d.reach(ts, ics)[0] is not None          # a callback is invoked after a tail publication
+        unlocked = []
+        for key in ("bthread", "barrier", "unreg"):
+            g = fn[key]
+            rep.touch(g)
+            must = lockset.compute(g)
+            lds = [l for l in g.all_insts() if l.op == "load" and l.d.get("ap") and pat.last_field(l.d["ap"]) == "defer_queue.tail" and "@rcu_defer_mutex" not in must.get(l.id, ())]
+            for l in lds:
+                # does it decide a return that never takes the mutex?
+                hit, _ = g.reach([l], None, avoid=lambda i: i.op == "call" and i.callee == "pthread_mutex_lock", stop_at_exit=True)
+                if hit is not None and hit.op == "ret":
+                    unlocked.append((key, l))
+        if early and unlocked:
+            rep.bad("C13.tailmeaning", fl, "the decoder publishes queue->tail before invoking the callback, and %s returns from a read of tail made without rcu_defer_mutex: "
+                    "it can return while a call queued before it is still running in the reclaimer" % fn[unlocked[0][0]].srcname, [unlocked[0][1].where(), ts[0].where()])
+        else:
+            rep.ok("C13.tailmeaning", fl, "tail is %s; barrier entry points %s" % ("published before the callbacks run (slots-reusable meaning)" if early else "published after the batch's callbacks ran",
+                                                                                 "read it without the mutex on a returning path" if unlocked else "read it only under rcu_defer_mutex"))
+
+
 RULES = [
+    ("C13.tailmeaning", rule_tailmeaning),
     ("C13.codec", rule_codec),
     ("C13.cap", rule_cap),
     ("C13.gp", rule_gp),
